@@ -93,6 +93,29 @@ BUILTIN_EXC.update({
     'ValueErrorMultiline': lambda m: ValueError(m + '\nsecond line\n\nfourth'), 'Xq9BadRepr': lambda m: Xq9BadRepr(m),
 })
 
+
+
+def _chained(m, how='cause', depth=1, inner=None):
+    """an ordinary exception explicitly chained to a protocol error (`raise X from rpc_error`, as a gateway or a retry /
+    timeout wrapper does), or raised while one was being handled: still an arbitrary exception"""
+    cur = inner if inner is not None else pjrpc.exceptions.JsonRpcError(code=4292, message='inner quota', data='Zq7_marker_cause')
+    for i in range(depth):
+        nxt = (RuntimeError if i == depth - 1 else TimeoutError)(m)
+        if how == 'cause':
+            nxt.__cause__ = cur
+        else:
+            nxt.__context__ = cur
+        cur = nxt
+    return cur
+
+
+BUILTIN_EXC.update({
+    'CausedByRpcError': lambda m: _chained(m), 'CausedByRpcErrorDeep': lambda m: _chained(m, depth=3),
+    'ContextIsRpcError': lambda m: _chained(m, how='context'),
+    'CausedByLibError': lambda m: _chained(m, inner=pjrpc.exceptions.MethodNotFoundError(data='Zq7_marker_cause')),
+    'CausedByInvalidParams': lambda m: _chained(m, inner=pjrpc.exceptions.InvalidParamsError()),
+})
+
 TYPED_CODE = 70001
 TYPED_MESSAGE = 'probe typed error'
 
@@ -101,6 +124,22 @@ class ProbeTypedError(pjrpc.exceptions.JsonRpcError):
     code = TYPED_CODE
     message = TYPED_MESSAGE
 
+
+STALE_CODE = 70003
+STALE_MESSAGE = 'probe long-lived error'
+
+
+class ProbeStaleError(pjrpc.exceptions.JsonRpcError):
+    code = STALE_CODE
+    message = STALE_MESSAGE
+
+
+# results (and error data) whose mappings have keys that are not strings: the JSON encoder writes them as strings
+KEYED = {
+    'int': lambda: {1: 'a', 2: 'b'}, 'mixed': lambda: {200: 7, 'total': 8, 404: 1}, 'float': lambda: {1.5: 'x', 'y': 2},
+    'consts': lambda: {True: 1, None: 2, 'z': 3}, 'nested': lambda: {'k': [{7: {8: 'deep', 'x': None}}]},
+    'neg-and-str': lambda: {-1: 0, '-2': 0, 'a': {'b': 1, 3: 2}},
+}
 
 CTOR_CODE = 70002
 CTOR_MESSAGE = 'probe ctor error'
@@ -484,6 +523,30 @@ def make_methods(log: Log, is_async: bool) -> Dict[str, Callable[..., Any]]:
 
     fac['cowrapped'] = cowrapped
 
+    def keyed(kind, how='result'):
+        log.calls.append(('keyed', (kind, how), {}))
+        v = KEYED[kind]() if isinstance(kind, str) and kind in KEYED else {}
+        if how == 'error':
+            raise ProbeTypedError(data=v)
+        return ['keyed', v]
+
+    async def a_keyed(kind, how='result'):
+        return keyed(kind, how)
+
+    fac['keyed'] = a_keyed if is_async else keyed
+
+    stale_error = ProbeStaleError()     # ONE long-lived error object (a module-level constant, in real life)
+
+    def stale(data=ABSENT, peek=True):
+        # updates the long-lived error object and raises it again; `peek`: the application renders it first (an audit log)
+        log.calls.append(('stale', (data, peek), {}))
+        if peek:
+            stale_error.to_json()
+        stale_error.data = UNSET if data == ABSENT else data
+        raise stale_error.with_traceback(None)
+
+    fac['stale'] = stale
+
     def whoami(ctx):
         log.calls.append(('whoami', (), {}))
         log.contexts.append(ctx)
@@ -594,7 +657,8 @@ def make_broken_view(log: Log, is_async: bool):
 
 METHOD_NAMES = ('js_checked', 'js_loose', 'slowfail', 'byid', 'wrapped', 'whoami', 'ctxp', 'slow', 'fac1', 'fac2', 'ok', 'noargs', 'echo', 'kwonly', 'rpcerr', 'typed', 'boom', 'ctxm', 'view.vm', 'typedctor', 'raiselib', 'pd_pos', '_under',
                 'ns._dotted', 'cowrapped', 'js_draft4', 'window', 'mutate', 'broken.vm', 'odd_defaults', 'tc_only',
-                'pd_strip', 'view.cm', 'view.sm', 'cnt.bump', 'pd_even', 'js_list', 'ctxm_plain', 'pd_span', 'view.note', 'pd_asis', 'rpc.ping', 'js_ref')
+                'pd_strip', 'view.cm', 'view.sm', 'cnt.bump', 'pd_even', 'js_list', 'ctxm_plain', 'pd_span', 'view.note', 'pd_asis', 'rpc.ping', 'js_ref',
+                'keyed', 'stale')
 
 
 def build_registry(log: Log, coroutines: bool) -> 'pjrpc.server.MethodRegistry':
@@ -640,6 +704,9 @@ class World:
         """Returns ('ret', value) or ('exc', exception)."""
         try:
             if self.is_async:
+                own = getattr(self, 'loop', None)      # a world may be driven under event loops of its own (see C02's loops cases)
+                if own is not None:
+                    return 'ret', own.run_until_complete(self.dispatcher.dispatch(text, context=context))
                 return 'ret', run(self.dispatcher.dispatch(text, context=context))
             return 'ret', self.dispatcher.dispatch(text, context=context)
         except BaseException as e:
